@@ -55,6 +55,12 @@ CLAIMED = {
         text="Generated sessions are fed to the real repl evaluator inside the simulator. The faults are inputs the checker rejects after partial work and a failpoint that fails a valid input at the k-th phase boundary of Checker.CheckProgram, which exercises the snapshot/restore path at every depth. Every other input must behave exactly as in the session with the rejected inputs removed, and accepted inputs must print what a batch run of the accepted prefix prints. Exploration level.",
         design_ref="DESIGN.md 5.8",
     ),
+    "C32": dict(
+        engine="E-TRACE",
+        technique="deterministic simulation: generated call chains that cross promises, run under seeded schedules, pool sizes 1-4, timers and competing tasks, so that every await is reached with the promise already rejected, still pending or awaited synchronously; oracle: the stack trace of the uncaught error equals the chain known by construction",
+        text="Claimed as a slice: the clause about errors rethrown across promises, whose outcome depends on which path the await takes (already-settled fast path, suspension and resumption by the settling thread, synchronous await from a plain function) and therefore on schedule, pool size and timers. Generated chains of 2-6 plain and async functions with five call/await forms throw in the innermost function; the trace that reaches the top level must list exactly the generated frames, outermost first, with function names and the lines of the calls, awaits and the throw. The sequential clauses (plain chains, generators, line tables) are not claimed. Exploration level.",
+        design_ref="DESIGN.md 5.11",
+    ),
     "C33": dict(
         engine="E-CANCEL",
         technique="deterministic simulation with fault injection: context cancellation injected at a seeded scheduler tick into 32 non-terminating program shapes compiled with abort checks; bounded liveness under fair scheduling after the fault",
@@ -95,7 +101,6 @@ NA = {
     "C29": "a static check of compiler output; its schedule dependence (patched call sites) is covered behaviourally by C11",
     "C30": "sequential program semantics of pattern matching",
     "C31": "sequential macro expansion semantics",
-    "C32": "sequential; the async clause is deterministic given the program",
 }
 
 ALL = ["C%02d" % i for i in range(1, 35)]
